@@ -23,6 +23,14 @@ Engines E1 (explicit-state BFS to closure) + E2 (small-scope enumeration) + E5 (
 (c) ``turn``   full real turns, scheduler enabled, budgets from {absent,0,1,2}^4, wall {absent,W}, the FakeClock
     advanced inside the stage seams: clamps (pops, layers, hits used, plan ops), exactly one boundary, reason
     precedence, later-stage records absent.
+(c') ``resumed slices``  slice HISTORIES on one shared state, the way clematis/scripts/demo.py drives the engine (one
+    state dict, one text, the agent comes round again): after every distinct first slice that stopped at a boundary
+    before Apply (nothing applied, version_etag and snapshots untouched) the identical turn is run again on the same
+    state object in the same process - nothing is reset, so whatever the earlier slice left behind (turn-level result
+    cache in the state, process-global stage caches) is in play - and judged by the same per-slice oracle.  A stage
+    whose seam is not entered on a resumed slice was served from a store: it takes no time, and what the slice consumes
+    of its budget is what the stored result holds (hits used = k_used of the stored T2 result), so the budget must bind
+    and be named with the same precedence as on the slice that computed it.
 """
 from __future__ import annotations
 
@@ -501,8 +509,13 @@ class _Rec:
         self.heappops = 0
         self.in_t1 = False
         self.t2 = []
+        self.t2_stage = None     # result of the T2 STAGE call (t2[] also holds retrievals issued from inside T3)
         self.plan_len = None
         self.extra_calls = []
+        # resumed slices only: stage results computed by EARLIER slices of the same history on the (unchanged) state
+        # {"T1": T1Result, "T2": T2Result, "T3": plan length, "T4": True}; a stage whose seam is not entered on a
+        # resumed slice although such a result exists was served from a store (zero duration, same consumption)
+        self.carry = {}
 
 
 class _FakeTime:
@@ -544,6 +557,7 @@ class Harness:
         self._cfg_cache = {}
         self._saved = None
         self.last_consumed = None
+        self.hist = None   # the slice history executed last: {"state", "cfg", "text", "script", "slices": [(rec, logs)], "carry"}
 
     # ---- seams
     def install(self):
@@ -586,11 +600,14 @@ class Harness:
 
         def w_t2(ctx, state, text, t1):
             r = h.rec
-            first = "T2" not in r.calls
+            # (a retrieval issued from inside T3 is never "the T2 stage", also when the T2 stage itself was served
+            #  from the turn-level store on a resumed slice and therefore never entered this seam)
+            first = "T2" not in r.calls and "T3" not in r.calls
             (r.calls if first else r.extra_calls).append("T2")
             res = t2core.t2_semantic(ctx, state, text, t1)
             r.t2.append(res)
             if first:
+                r.t2_stage = res
                 h.clock_ms += r.script[1]
             return res
 
@@ -699,6 +716,7 @@ class Harness:
     # ---- one execution
     def run_turn(self, case):
         import clematis.engine.orchestrator as orch
+        self.hist = None
         self._clean()
         self.reset_caches()
         self.clock_ms = 1000
@@ -723,13 +741,66 @@ class Harness:
             ctx.turn_id, ctx.cfg, ctx.config = 1, cfg, cfg
         else:
             ctx = types.SimpleNamespace(turn_id=1, agent_id="A", now=NOW_ISO, now_ms=NOW_MS, cfg=cfg, config=cfg, enc=_Enc())
+        self.hist = None
         self.rec = rec = _Rec(tuple(int(x) for x in case["script"]))
         try:
             result = orch.run_turn(ctx, state, case["text"])
         finally:
             self.rec = None
         logs = self.read_logs()
+        if not case.get("warm"):
+            self.hist = {"state": state, "cfg_key": (budgets, case.get("wall")), "text": case["text"],
+                         "script": rec.script, "slices": [(rec, logs)], "carry": {}}
         return rec, logs, state, result
+
+    def resumable(self):
+        """The slice executed last stopped at a boundary BEFORE Apply and left the state untouched: the driver runs the
+        same turn again (clematis/scripts/demo.py: one shared state, one text, the agent comes round again)."""
+        hs = self.hist
+        if not hs:
+            return None
+        rec, logs = hs["slices"][-1]
+        sr = logs.get("scheduler.jsonl", [])
+        if len(sr) != 1 or sr[0].get("stage_end") not in STAGES[:4]:
+            return None
+        i = STAGES.index(sr[0]["stage_end"])
+        if any(c not in STAGES[: i + 1] for c in rec.calls):
+            return None
+        if hs["state"].get("version_etag") != "0" or any(True for _ in os.scandir(self.snaps)):
+            return None
+        return sr[0]["stage_end"]
+
+    def next_slice(self):
+        """One more slice of the history executed last: same process (the process-global stage caches and everything the
+        earlier slices left in `state` stay as they are), same state object, same configuration, text, agent and
+        stage-duration script, a fresh context object with the next turn id, the slice clock restarted."""
+        import clematis.engine.orchestrator as orch
+        hs = self.hist
+        prev, _ = hs["slices"][-1]
+        carry = dict(hs["carry"])
+        if "T1" in prev.calls and prev.t1 is not None:
+            carry["T1"] = prev.t1
+        if prev.t2_stage is not None:
+            carry["T2"] = prev.t2_stage
+        if "T3" in prev.calls and prev.plan_len is not None:
+            carry["T3"] = prev.plan_len
+        if "T4" in prev.calls:
+            carry["T4"] = True
+        hs["carry"] = carry
+        cfg = self.config(*hs["cfg_key"])
+        self._clean()
+        self.clock_ms = 1000
+        ctx = types.SimpleNamespace(turn_id=1 + len(hs["slices"]), agent_id="A", now=NOW_ISO, now_ms=NOW_MS, cfg=cfg,
+                                    config=cfg, enc=_Enc())
+        self.rec = rec = _Rec(hs["script"])
+        rec.carry = carry
+        try:
+            orch.run_turn(ctx, hs["state"], hs["text"])
+        finally:
+            self.rec = None
+        logs = self.read_logs()
+        hs["slices"].append((rec, logs))
+        return rec, logs, hs["state"]
 
 
 def eval_turn(case, rec, logs, state):
@@ -742,13 +813,26 @@ def eval_turn(case, rec, logs, state):
     multi = ":multi-graph" if ngraphs > 1 else ""
     desc = "world=%s text=%r budgets=%s wall=%s script=%s" % (world, text, json.dumps(budgets, sort_keys=True), wall, script)
     clamped = False
+    resumed = int(case.get("resume") or 0)
+    carry = rec.carry if resumed else {}
+    # a stage whose seam was not entered on a resumed slice although an earlier slice of the history computed its
+    # result on the same, unchanged state: served from a store - no time passes in the seam, and the result the turn
+    # works with (hence what the slice consumes of its budgets) is the stored one
+    served = {s for s in STAGES[:4] if s not in rec.calls and s in carry}
+    if resumed:
+        desc += " [slice %d of a history of identical slices; every earlier one stopped before Apply%s]" % (
+            resumed + 1, ("; %s not recomputed" % "/".join(sorted(served))) if served else "")
 
-    if rec.calls[:1] != ["T1"] or rec.t1 is None:
+    t1res = rec.t1 if "T1" in rec.calls else carry.get("T1")
+    if t1res is None or (rec.calls[:1] != ["T1"] and "T1" not in served):
+        if resumed:
+            return [("turn:stage-skipped-without-yield", "T1 did not run (calls=%s); %s" % (rec.calls, desc))], (
+                "turn", "no-T1", "-"), False
         raise HarnessError("T1 seam not reached: calls=%s" % rec.calls)
     # ---------- clamps
-    m1 = getattr(rec.t1, "metrics", {}) or {}
+    m1 = getattr(t1res, "metrics", {}) or {}
     pops, iters = int(m1.get("pops", 0)), int(m1.get("iters", 0))
-    if pops > 0 and rec.heappops == 0 and not case.get("warm"):   # (a warm-cache hit legitimately performs no pops)
+    if pops > 0 and rec.heappops == 0 and not case.get("warm") and not resumed:   # (a warm-cache hit legitimately performs no pops)
         raise HarnessError("heappop seam in t1 no longer observes pops (metrics say %d)" % pops)
     bp, bi, bk, bo = budgets["t1_pops"], budgets["t1_iters"], budgets["t2_k"], budgets["t3_ops"]
     if bp is not None:
@@ -756,7 +840,7 @@ def eval_turn(case, rec, logs, state):
             out.append(("clamp:t1_pops" + multi, "T1 popped %d (counted %d) > t1_pops=%d over %d graph(s); %s" % (
                 pops, rec.heappops, bp, ngraphs, desc)))
         clamped = clamped or max(pops, rec.heappops) >= bp
-    touched = {d.get("id") for d in (getattr(rec.t1, "graph_deltas", []) or []) if isinstance(d, dict)}
+    touched = {d.get("id") for d in (getattr(t1res, "graph_deltas", []) or []) if isinstance(d, dict)}
     if bi is not None:
         # the layer cap is a depth: the metric adds the depths of the active graphs, so it is bounded per graph
         if iters > bi * ngraphs:
@@ -767,7 +851,9 @@ def eval_turn(case, rec, logs, state):
                 sorted(touched - reach), bi, sorted(reach), desc)))
         clamped = clamped or iters >= bi
     lab = world_label_ids(world)
-    for n_call, t2 in enumerate(rec.t2):
+    t2res = rec.t2_stage if rec.t2_stage is not None else (carry.get("T2") if "T2" in served else None)
+    # (the result a resumed slice works with is held to this slice's cap as well, also when it came out of a store)
+    for n_call, t2 in enumerate(([t2res] if "T2" in served and t2res is not None else []) + list(rec.t2)):
         m2 = getattr(t2, "metrics", {}) or {}
         if bk is not None:
             ku = m2.get("k_used")
@@ -784,10 +870,11 @@ def eval_turn(case, rec, logs, state):
                 out.append(("clamp:t2_k:residual", "T2 call %d nudged %s, not derivable from the first %d hit(s) (%s); %s" % (
                     n_call, sorted(res_ids - allowed_nodes), bk, sorted(allowed_nodes), desc)))
             clamped = clamped or (ku is not None and int(ku) >= bk)
-    if bo is not None and rec.plan_len is not None:
-        if rec.plan_len > bo:
-            out.append(("clamp:t3_ops", "plan has %d ops > t3_ops=%d; %s" % (rec.plan_len, bo, desc)))
-        clamped = clamped or rec.plan_len >= bo
+    plan_len = rec.plan_len if "T3" in rec.calls else carry.get("T3")
+    if bo is not None and plan_len is not None:
+        if plan_len > bo:
+            out.append(("clamp:t3_ops", "plan has %d ops > t3_ops=%d; %s" % (plan_len, bo, desc)))
+        clamped = clamped or plan_len >= bo
     if bo is not None:
         for r in logs.get("t3_plan.jsonl", []):
             tot = sum(int(v) for v in (r.get("ops_counts") or {}).values())
@@ -820,21 +907,22 @@ def eval_turn(case, rec, logs, state):
     stop_at = None
     simultaneous = False
     for i, stage in enumerate(STAGES):
-        if stage not in rec.calls:
+        if stage not in rec.calls and stage not in served:
             out.append(("turn:stage-skipped-without-yield", "stage %s did not run although no boundary before it fired; calls=%s; %s" % (
                 stage, rec.calls, desc)))
             break
-        elapsed += script[i]
+        if stage in rec.calls:   # (the clock only advances inside a seam that was entered)
+            elapsed += script[i]
         consumed = {"ms": elapsed}
         if stage == "T1":
             consumed["t1_iters"], consumed["t1_pops"] = iters, pops
         elif stage == "T2":
-            ku = (getattr(rec.t2[0], "metrics", {}) or {}).get("k_used") if rec.t2 else None
+            ku = (getattr(t2res, "metrics", {}) or {}).get("k_used") if t2res is not None else None
             if ku is not None:
                 consumed["t2_k"] = int(ku)
         elif stage == "T3":
-            if rec.plan_len is not None:
-                consumed["t3_ops"] = rec.plan_len
+            if plan_len is not None:
+                consumed["t3_ops"] = plan_len
         allowed = ref_yield(bd, consumed)
         nconds = int(wall is not None and elapsed >= wall) + int(elapsed >= Q_MS) + int(
             any(bd.get(k) is not None and consumed.get(k) == bd[k] for k in BKEYS))
@@ -874,7 +962,22 @@ def eval_turn(case, rec, logs, state):
     return out, outcome, nontrivial
 
 
-def check_turn(h: Harness, case):
+RESUMED = ":resumed-slice"
+
+
+def _applied_after_yield(h, case, logs, state):
+    # a yield before Apply must not have applied anything
+    sched_recs = logs.get("scheduler.jsonl", [])
+    if sched_recs and sched_recs[0].get("stage_end") in ("T1", "T2", "T3", "T4"):
+        snaps = [e.name for e in os.scandir(h.snaps)]
+        if state.get("version_etag") != "0" or snaps:
+            return [("turn:applied-after-yield", "yielded at %s but version_etag=%r snapshots=%s; %s" % (
+                sched_recs[0].get("stage_end"), state.get("version_etag"), snaps, json.dumps(case, sort_keys=True)))]
+    return []
+
+
+def check_first(h: Harness, case):
+    """first slice of a history: fresh state, process-global stage caches reset"""
     h.last_consumed = None
     try:
         rec, logs, state, _ = h.run_turn(case)
@@ -884,21 +987,61 @@ def check_turn(h: Harness, case):
         return [("turn:raises:%s" % type(e).__name__, "run_turn raised %r; %s" % (e, json.dumps(case, sort_keys=True)))], (
             "turn", "raises", type(e).__name__), False
     viols, outcome, nontrivial = eval_turn(case, rec, logs, state)
-    # a yield before Apply must not have applied anything
-    sched_recs = logs.get("scheduler.jsonl", [])
-    if sched_recs and sched_recs[0].get("stage_end") in ("T1", "T2", "T3", "T4"):
-        snaps = [e.name for e in os.scandir(h.snaps)]
-        if state.get("version_etag") != "0" or snaps:
-            viols.append(("turn:applied-after-yield", "yielded at %s but version_etag=%r snapshots=%s; %s" % (
-                sched_recs[0].get("stage_end"), state.get("version_etag"), snaps, json.dumps(case, sort_keys=True))))
+    viols.extend(_applied_after_yield(h, case, logs, state))
     # script entries after the boundary where the turn stopped were never read by any seam: every script that
     # shares the consumed prefix is the same execution
     h.last_consumed = None
+    sched_recs = logs.get("scheduler.jsonl", [])
     if len(sched_recs) == 1 and sched_recs[0].get("stage_end") in STAGES:
         i = STAGES.index(sched_recs[0]["stage_end"])
         if all(c in STAGES[: i + 1] for c in rec.calls):
             h.last_consumed = i + 1
     return viols, outcome, nontrivial
+
+
+def check_next(h: Harness, base, depth, seen):
+    """Slice `depth`+1 of the history the harness executed last (it must be resumable): the per-slice oracle is the one
+    of the first slice - the state is untouched, so the same clamps, the same boundary and the same reason precedence
+    apply to what THIS slice consumes.  Clauses an earlier slice of the same history already failed (`seen`) are not
+    reported again.  returns (violations, outcome, nontrivial, stages served without recomputation)"""
+    case = dict(base, resume=depth)
+    try:
+        rec, logs, state = h.next_slice()
+    except HarnessError:
+        raise
+    except Exception as e:
+        h.hist = None
+        return [("turn:raises:%s%s" % (type(e).__name__, RESUMED), "run_turn raised %r on slice %d; %s" % (
+            e, depth + 1, json.dumps(case, sort_keys=True)))], ("turn", "raises", type(e).__name__), False, ()
+    viols, outcome, nontrivial = eval_turn(case, rec, logs, state)
+    viols.extend(_applied_after_yield(h, case, logs, state))
+    new = []
+    for sig, what in viols:
+        if sig not in seen:
+            new.append((sig + RESUMED, what))
+    seen.update(sig for sig, _ in viols)
+    served = tuple(s for s in STAGES[:4] if s not in rec.calls and s in rec.carry and (
+        outcome[1] == "-" or (outcome[1] in STAGES and STAGES.index(s) <= STAGES.index(outcome[1]))))
+    return new, outcome, nontrivial, served
+
+
+def check_turn(h: Harness, case):
+    """One case from scratch: the first slice, then `resume` more identical slices as long as each stopped before Apply
+    (a history that ends earlier is outside the explored space: nothing to judge)."""
+    n = int(case.get("resume") or 0)
+    base = {k: v for k, v in case.items() if k != "resume"}
+    res = check_first(h, base)
+    if not n or base.get("warm"):
+        return res
+    h.last_consumed = None
+    seen = {sig for sig, _ in res[0]}
+    for d in range(1, n + 1):
+        if h.resumable() is None:
+            return [], ("turn", "history-ends", "-"), False
+        res = check_next(h, base, d, seen)[:3]
+        if h.hist is None:
+            break
+    return res
 
 
 def minimise_turn(h, case, sig, what):
@@ -953,7 +1096,7 @@ def _dedupe(viols):
     return out
 
 
-def _turn_worker(chunk, st: Stats, scratch_root, scripts, texts, worlds):
+def _turn_worker(chunk, st: Stats, scratch_root, scripts, texts, worlds, rdepth=1, rfrom=("T2", "T3", "T4")):
     import logging
     logging.disable(logging.CRITICAL)
     scratch = os.path.join(scratch_root, "turn-%d" % os.getpid())
@@ -961,7 +1104,7 @@ def _turn_worker(chunk, st: Stats, scratch_root, scripts, texts, worlds):
     h.install()
     minimised = set()
     try:
-        first = True
+        first = first_resumed = True
         for bvec, wall in chunk:
             budgets = dict(zip(BKEYS, bvec))
             st.distinct("states", ("turn-cfg", bvec, wall))
@@ -974,14 +1117,44 @@ def _turn_worker(chunk, st: Stats, scratch_root, scripts, texts, worlds):
                             continue
                         case = {"kind": "turn", "world": world, "text": text, "budgets": budgets, "wall": wall,
                                 "script": list(script)}
-                        viols, outcome, nontrivial = check_turn(h, case)
+                        viols, outcome, nontrivial = check_first(h, case)
                         if h.last_consumed is not None:
                             dead.add(tuple(script[: h.last_consumed]))
+                        # resumed-slice leg: the turn stopped before Apply, so the driver runs it again on the same state
+                        follow = []
+                        seen = {sg for sg, _w in viols}
+                        for d in range(1, rdepth + 1):
+                            if h.hist is None or h.resumable() not in rfrom:
+                                break
+                            follow.append((d,) + check_next(h, case, d, seen))
                         if first:  # harness determinism: the very first execution is repeated
                             first = False
-                            v2, o2, _ = check_turn(h, case)
+                            v2, o2, _ = check_first(h, case)
                             if (sorted(viols), outcome) != (sorted(v2), o2):
                                 raise HarnessError("turn harness nondeterministic on %s" % json.dumps(case, sort_keys=True))
+                        if follow and first_resumed:  # ... and the first history is re-executed from scratch (= the replay path)
+                            first_resumed = False
+                            d, fv, fo = follow[-1][:3]
+                            v2, o2, _ = check_turn(h, dict(case, resume=d))
+                            if (sorted(fv), fo) != (sorted(v2), o2):
+                                raise HarnessError("resumed-slice harness nondeterministic on %s" % json.dumps(
+                                    dict(case, resume=d), sort_keys=True))
+                        for d, fv, fo, fnon, fserved in follow:
+                            st.add("transitions")
+                            st.add("validated")
+                            st.add("turns_resumed")
+                            st.add("turns_resumed:served-from-store:%s" % ("+".join(fserved) or "nothing"))
+                            if fnon and fserved:
+                                st.add("nontrivial")
+                                st.add("turns_resumed_nontrivial")
+                            st.distinct("states", ("turn-resumed", bvec, wall, d, fserved))
+                            st.distinct("outcomes", ("resumed", d, fserved) + tuple(fo[1:]))
+                            for sig, what in _dedupe(fv):
+                                if sig in minimised:
+                                    continue
+                                minimised.add(sig)
+                                mc, mw = minimise_turn(h, dict(case, resume=d), sig, what)
+                                st.violation(sig, mw, mc)
                         st.add("transitions")
                         st.add("validated")
                         st.add("turns")
@@ -1030,7 +1203,7 @@ def _dispatch(chunk, st: Stats, scratch_root, P):
         elif kind == "yield":
             _yield_worker(item[1], st, P["yvals"], P["walls"], P["elapsed"])
         elif kind == "turn":
-            _turn_worker(item[1], st, scratch_root, P["scripts"], P["texts"], P["worlds"])
+            _turn_worker(item[1], st, scratch_root, P["scripts"], P["texts"], P["worlds"], P["resume_depth"], P["resume_from"])
         else:
             raise HarnessError("unknown work item %r" % (kind,))
 
@@ -1055,6 +1228,8 @@ def params(thorough):
             "yvals": (0, 1, 2, 3), "walls": (None, Q_MS, W_MS), "elapsed": (0, Q_MS - 1, Q_MS, W_MS - 1, W_MS, W_MS + 1),
             "bvals": (None, 0, 1, 2), "twalls": (None, W_MS), "scripts": _scripts(2, durs),
             "texts": ("apple", "fig", "plum", "zzz"), "worlds": ("W1", "W2"),
+            # resumed-slice leg: up to two more identical slices after every distinct first slice that stopped before Apply
+            "resume_depth": 2, "resume_from": ("T1", "T2", "T3", "T4"),
         }
     return {
         "ns": (2, 3, 4), "allow": (1, 2, 3), "aging": (0, 100), "advs": (0, 50, 100, 300), "gaps": (0,),
@@ -1063,6 +1238,9 @@ def params(thorough):
         # zero; one stage takes a quantum / the wall; two stages take half a quantum each (elapsed time accumulates)
         "scripts": _scripts(1, (Q_MS, W_MS)) + [s for s in _scripts(2, (Q_MS // 2,)) if sum(1 for x in s if x) == 2],
         "texts": ("apple", "fig", "plum", "zzz"), "worlds": ("W1", "W2"),
+        # resumed-slice leg: one more identical slice after every distinct first slice that stopped at the T2, T3 or T4
+        # boundary (a slice that stopped at T1 leaves nothing in the state; thorough tier)
+        "resume_depth": 1, "resume_from": ("T2", "T3", "T4"),
     }
 
 
@@ -1106,6 +1284,8 @@ def run(run: Run) -> None:
          "wall": None, "script": [Q_MS // 2, 0, Q_MS // 2, 0, 0]},
         {"kind": "turn", "world": "W2", "text": "fig", "budgets": {"t1_iters": None, "t1_pops": None, "t2_k": None, "t3_ops": None},
          "wall": W_MS, "script": [0, 0, 0, 0, Q_MS]},
+        {"kind": "turn", "world": "W1", "text": "apple", "budgets": {"t1_iters": None, "t1_pops": None, "t2_k": 2, "t3_ops": None},
+         "wall": None, "script": [0, 0, 0, 0, 0], "resume": 1},
     ]
     if run.n.get("depth_cap_hit"):
         run.cap("scheduler BFS hit the depth safety net 4B+4 in %d configuration(s) (e.g. %s)" % (
@@ -1122,6 +1302,7 @@ def run(run: Run) -> None:
         "yield_budget_values": ["absent"] + list(P["yvals"]), "yield_wall": ["absent", Q_MS, W_MS], "yield_elapsed": list(P["elapsed"]),
         "turn_budget_values": ["absent", 0, 1, 2], "turn_wall": ["absent", W_MS], "quantum_ms": Q_MS,
         "turn_scripts": len(P["scripts"]), "turn_texts": list(P["texts"]), "turn_worlds": list(P["worlds"]),
+        "turn_resumed_slices": P["resume_depth"], "turn_resumed_after_stop_at": list(P["resume_from"]),
     }
     if run.n.get("turns", 0) + run.n.get("turn_scripts_same_execution_skipped", 0) != nturn:
         raise HarnessError("turn enumeration incomplete: %s + %s of %d" % (
@@ -1132,15 +1313,34 @@ def run(run: Run) -> None:
         "while at least one agent is saturated; (b) every budgets x consumed x wall x elapsed tuple of _should_yield against the "
         "reference precedence; non-trivial = at least two of {wall, budget, quantum} conditions hold at once; (c) every "
         "(budget vector, wall, world, text, stage-duration script) full turn; non-trivial = the turn yielded at a boundary where "
-        "two conditions coincide or a clamp was binding")
+        "two conditions coincide or a clamp was binding; (c') slice histories: after every distinct first slice that stopped at "
+        "a boundary before Apply (quick: T2/T3/T4, thorough: also T1) the same turn is run again on the SAME state object in the "
+        "same process (same configuration, text, agent, stage-duration script; quick 1, thorough 2 more slices, each only if its "
+        "predecessor again stopped before Apply) and judged by the same per-slice oracle; a stage whose seam is not entered on a "
+        "resumed slice was served from a store: it takes no time and the slice consumes what the stored result holds (hits used "
+        "= k_used of the stored T2 result); non-trivial = a resumed slice with a stage served from a store that yielded with a "
+        "binding clamp or two coinciding conditions")
+    run.notes["resumed_slices"] = {
+        "depth": P["resume_depth"], "after_first_slice_stopped_at": list(P["resume_from"]),
+        "executed": int(run.n.get("turns_resumed", 0)),
+        "with_T2_served_from_store": int(sum(v for k, v in run.n.items()
+                                             if k.startswith("turns_resumed:served-from-store:") and "T2" in k.split(":")[-1])),
+        "nontrivial": int(run.n.get("turns_resumed_nontrivial", 0)),
+    }
     run.assume("the driver calls on_yield after every selection with reset = (pick reason == RESET_CONSEC), as clematis/scripts/demo.py "
                "does for yielded turns; turns that do not yield (no bookkeeping) are outside the bound's premise")
     run.assume("selection depends on absolute time only through now - last_ran_ms (re-validated per transition at a second time base); "
                "clock never runs backwards; agent ids are single upper-case letters (lexicographic = alphabetical)")
     run.assume("round_robin and fair_queue with aging_ms=0 are documented as clock-free, so idle durations are left out of the "
                "canonical state there (the policy oracle checks the clock-free pick on every transition)")
-    run.assume("full turns: perf/parallel/GEL/reflection gates off, rule-based T3, process-global T1/T2 caches reset before every "
-               "turn (a warm T2 stage cache is keyed without the slice cap; cache transparency is property C05)")
+    run.assume("full turns: perf/parallel/GEL/reflection gates off, rule-based T3, process-global T1/T2 caches reset before the "
+               "first slice of every history (a warm T2 stage cache is keyed without the slice cap; cache transparency is property "
+               "C05); resumed slices keep whatever the earlier slices left in the process and in the state (turn-level result "
+               "cache included), with the budgets unchanged between the slices of one history")
+    run.assume("resumed slices: only histories whose earlier slices all stopped before Apply and left version_etag and the snapshot "
+               "directory untouched are continued, so the graph/memory world the reference reach and hit sets are computed from "
+               "is the initial one; time spent in a store lookup is zero (the fake clock only advances inside the stage seams), so "
+               "on a resumed slice quantum/wall cannot newly expire at the boundary of a stage served from a store")
     run.assume("orchestrator clock = core.time.perf_counter (FakeClock); elapsed time only advances inside the five stage seams")
     run.assume("which of several exhausted stage budgets is named, and whether consumption strictly above a budget counts as "
                "exhausted, is not part of the statement and not checked")
